@@ -44,6 +44,12 @@ class VersionMonitor(Monitor):
                 elif old != impl:
                     raise core.Violation('C17 position %d was executed with implementation v%d on one node and v%d on %s (%r)' % (
                         pos, old, impl, nid, ev), sig='different-implementation')
+                if isinstance(sid, tuple) and sid and sid[0] == 'vh':
+                    # issued from inside onCodeVersionChanged(old, new): version `new` is enabled at that moment
+                    want = max(v for v in (0, 1) if v <= sid[1])
+                    if impl != want:
+                        raise core.Violation('C17 the call issued from onCodeVersionChanged(.., %d) is executed with implementation v%d (%r)' % (
+                            sid[1], impl, ev), sig='wrong-implementation')
                 if sid in exp and exp[sid] != impl:
                     raise core.Violation('C17 submission %r was made when the caller had version %d enabled but is executed with '
                                          'implementation v%d (%r)' % (sid, exp[sid], impl, ev), sig='wrong-implementation')
